@@ -995,6 +995,8 @@ fn parse_number(
     };
     match chars.parse::<f64>() {
         Err(_) => Err("Failed to parse to double".to_string()),
+        // 1e999 parses to infinity: that is not a number a cell can hold
+        Ok(v) if !v.is_finite() => Err("Number is too large".to_string()),
         Ok(v) => Ok((
             sign * v,
             NumberOptions {
